@@ -185,6 +185,19 @@ impl Prop for C05 {
             let fb = wf::fallback_nb_ranges(&input, &obs);
             let header_anon_ords: Vec<(usize, usize)> = prog.header_anon_stmts.iter().map(|(a, b)| (pl.ord[*a], pl.ord[*b])).collect();
             let raise_anon_ords: Vec<(usize, usize)> = prog.raise_anon_stmts.iter().map(|(a, b)| (pl.ord[*a], pl.ord[*b])).collect();
+            // `Strict` used as an identifier inside a class/record body (legal: it is a directive only in
+            // front of private/protected) is taken for the start of a visibility section
+            let strict_ident_ord: Option<usize> = prog
+                .toks
+                .iter()
+                .enumerate()
+                .filter(|(i, t)| {
+                    t.kind == crate::gen::gram::GK::SoftIdent
+                        && t.text.eq_ignore_ascii_case("strict")
+                        && prog.blocks.iter().any(|b| b.kind == BlockKind::TypeBody && b.opener < *i && b.closer.is_some_and(|c| c > *i))
+                })
+                .map(|(i, _)| pl.ord[i])
+                .min();
             let mut findings = vec![];
             for b in &prog.blocks {
                 check_block(prog, b, &pl, &cfg, &mut findings, &mut out);
@@ -200,6 +213,8 @@ impl Prop for C05 {
                     "anon-routine-in-control-header".to_string()
                 } else if raise_anon_ords.iter().any(|(a, b)| f.ord >= *a && f.ord <= *b) {
                     "anon-routine-in-raise".to_string()
+                } else if strict_ident_ord.is_some_and(|o| f.ord >= o) {
+                    "strict-identifier-in-type-body".to_string()
                 } else {
                     f.class.to_string()
                 };
